@@ -11,6 +11,7 @@ SKELETONS = [
     R + "variable.go:NewDerivedVariable4",
     R + "utils.go:callback.LockExecution", R + "utils.go:callback.MarkUnsubscribed",
     R + "set_impl.go:set.Apply", R + "set_impl.go:readableSet.OnUpdate",
+    R + "set_impl.go:set.Compute", R + "set_impl.go:readableSet.SubtractReactive", R + "set_impl.go:derivedSet.InheritFrom",
     R + "set_impl.go:derivedSet.inheritMutations", R + "set_impl.go:derivedSet.applyInheritedMutations",
     R + "counter_impl.go:counter.Monitor",
     R + "sorted_set_impl.go:sortedSet.addSorted", R + "sorted_set_impl.go:sortedSet.deleteSorted",
@@ -20,7 +21,7 @@ SKELETONS = [
     R + "eviction_state_impl.go:evictionState.EvictionEvent",
 ]
 EXTRA = ["LockExecution", "UnlockExecution", "MarkUnsubscribed", "Invoke", "Trigger", "OnUpdate", "Compute", "Set", "Get",
-         "Add", "Delete", "unsubscribeFromWeightUpdates", "updatePosition", "Apply"]
+         "Add", "Delete", "unsubscribeFromWeightUpdates", "updatePosition", "Apply", "Subtract"]
 
 
 def regen(ctx):
@@ -37,7 +38,7 @@ SPEC = {
     "theorems": [
         "C14_derived_var", "C14_derived_var_steady", "C14_inherit",
         "C14_derived_set", "C14_derived_set_counts", "C14_subtract", "C14_counter",
-        "C14_derived_set_concurrent", "C14_counter_concurrent", "C14_sorted_set_concurrent",
+        "C14_derived_set_concurrent", "C14_subtract_concurrent", "C14_skeleton_readableSet_SubtractReactive", "C14_counter_concurrent", "C14_sorted_set_concurrent",
         "C14_sorted_set", "C14_sorted_set_spec", "C14_sorted_set_members", "C14_sorted_set_absent_weight",
         "C14_eviction", "C14_eviction_unique", "C14_eviction_pre",
         "C14_waitgroup_sequential", "C14_waitgroup_counter", "C14_waitgroup_only_if", "C14_waitgroup",
